@@ -32,7 +32,7 @@ TRUST_COMMON = [
 # not_decided (clauses of the property out of reach of this family), technique.
 _ALL = {
     "C01": dict(
-        want=["T1", "T3", "D1", "D6", "D6b", "P2", "P3", "K1@reduce"],
+        want=["T1", "T3", "D1", "D6", "D6b", "P2", "P3", "K1@reduce", "K4@reduce"],
         explanation=("Static analysis of /repo's source. Decides: every row reducer (ScalarFuncs) normalised to a decision "
                      "table over NULL/NZ/ORD atoms equals the hand-written specification of the operation it is dispatched as "
                      "(size, count, sum, mean=sum/count, min, max, first, last); op->kernel->reducer dispatch by constant "
@@ -67,7 +67,7 @@ _ALL = {
         technique="call-site binding rules, def-use on the completion loop, typestate of the key representation",
     ),
     "C04": dict(
-        want=["T1", "T2", "D2", "D6", "D8", "D9", "M1", "M2", "M4", "K1@reduce"],
+        want=["T1", "T2", "D2", "D6", "D8", "D9", "M1", "M2", "M4", "K1@reduce", "K4@reduce"],
         explanation=("Decides the monoid contract of the block-wise kernels: reducer decision tables equal their specs (T1); "
                      "algebraic laws on the tables — empty partial is the identity, nulls are skipped, count +1 exactly on "
                      "accepted values, selection reducers return one of their operands, merge classes are closed (T2); both "
@@ -107,7 +107,7 @@ _ALL = {
         technique="taint analysis of index spaces; typestate; path rule",
     ),
     "C08": dict(
-        want=["T1", "U1", "U2", "K1@cumulative", "K3@cumulative", "T3", "P1", "P8", "D4"],
+        want=["T1", "U1", "U2", "K1@cumulative", "K3@cumulative", "K4@cumulative", "T3", "P1", "P8", "D4"],
         explanation=("Decides the structure of the per-group prefix reduction: reducer tables (T1, skip and non-skip pairs); "
                      "the running value is read from the output at the group's previous accepted row (U1) and per-group "
                      "bookkeeping is updated only on accepted rows (U2); null keys skipped (K1), masked rows do not interfere "
